@@ -763,8 +763,11 @@ func (c *Client) Do(ctx context.Context, q Query) (err error) {
 				return nil
 			default:
 				if err := c.handlePacket(ctx, code, q); err != nil {
-					if IsException(err) {
-						// Prevent query cancellation on exception.
+					if code == proto.ServerCodeException && IsException(err) {
+						// Prevent query cancellation on exception sent by
+						// the server for this query. A failed callback can
+						// also return an Exception (e.g. of a nested query),
+						// but the server is still in the middle of this one.
 						gotException.Store(true)
 					}
 					return errors.Wrap(err, "handle packet")
